@@ -253,10 +253,8 @@ Definition split_fq (url : bytes) : bytes * bytes * bytes :=
   let '(url2, _, query) := partition cQM url1 in
   (url2, query, fragment).
 
-(* urlsplit: None = ValueError; result (scheme, netloc, path, query, fragment) *)
-Definition urlsplit (url0 : bytes) : option (bytes * bytes * bytes * bytes * bytes) :=
-  let url := remove_unsafe (lstrip_c0 url0) in
-  let '(scheme, url) := split_scheme url in
+(* urlsplit after the scheme has been taken off *)
+Definition urlsplit_rest (scheme url : bytes) : option (bytes * bytes * bytes * bytes * bytes) :=
   match url with
   | x2f :: x2f :: rest =>
       let '(netloc, rest') := span (fun b => negb (is_delim b)) rest in
@@ -266,6 +264,11 @@ Definition urlsplit (url0 : bytes) : option (bytes * bytes * bytes * bytes * byt
   | _ => let '(p, q, f) := split_fq url in Some (scheme, [], p, q, f)
   end.
 
+(* urlsplit: None = ValueError; result (scheme, netloc, path, query, fragment) *)
+Definition urlsplit (url0 : bytes) : option (bytes * bytes * bytes * bytes * bytes) :=
+  let '(scheme, url) := split_scheme (remove_unsafe (lstrip_c0 url0)) in
+  urlsplit_rest scheme url.
+
 Definition splitparams (url : bytes) : bytes * bytes :=
   if mem cSLASH url then
     let '(a, _, seg) := rpartition cSLASH url in      (* seg = text after the last slash *)
@@ -274,13 +277,16 @@ Definition splitparams (url : bytes) : bytes * bytes :=
   else
     let '(s1, _, params) := partition cSEMI url in (s1, params).
 
+(* the params split of urlparse *)
+Definition split_params_of (scheme url : bytes) : bytes * bytes :=
+  if in_list scheme uses_params && mem cSEMI url then splitparams url else (url, []).
+
 Definition urlparse (url0 : bytes)
   : option (bytes * bytes * bytes * bytes * bytes * bytes) :=
   match urlsplit url0 with
   | None => None
   | Some (scheme, netloc, url, query, fragment) =>
-      let '(path, params) :=
-        if in_list scheme uses_params && mem cSEMI url then splitparams url else (url, []) in
+      let '(path, params) := split_params_of scheme url in
       Some (scheme, netloc, path, params, query, fragment)
   end.
 
